@@ -9,10 +9,12 @@
    unbuffered channel, commit to the timeout, deletion of the entry, closing
    of the waiter's "gone" channel.
 
-   [guarded = true]  the repaired client (fixes/C17-reply-rendezvous.patch):
-                     run selects on {reply channel, waiter gone, Done};
-   [guarded = false] the client as it is in the unrepaired tree:
-                     run selects on {reply channel, Done} only.
+   [guarded = true]  the repaired client (fixes/C17-reply-rendezvous.patch,
+                     fixes/C17-send-after-transport-end.patch): run selects on
+                     {reply channel, waiter gone, RecvDone, Done}; an API
+                     goroutine hands its request over with select {send, Done};
+   [guarded = false] the client as it was: run selects on {reply channel,
+                     Done} only; requests are handed over with a plain send.
 
    The shape of every process is what go/cmd/genclient extracts from
    client.go and Client/ClientSkeleton.v checks (H1..H9): that tie, not this
@@ -31,6 +33,7 @@ Definition id := N.
 
 (* program counter of an API goroutine between expectReply and its return *)
 Inductive wpc :=
+| WSending         (* entry registered; handing the request to the peer: select {send, Done} *)
 | WSelect          (* in the select {reply, timer | ctx, Done} *)
 | WProg            (* Call: handing a progressive result to the progress goroutine *)
 | WCancelSend      (* Call: context cancelled, sending CANCEL to the router *)
@@ -63,23 +66,25 @@ Record state := {
   done : bool;                  (* c.Done() is closed *)
   c_pc : cpc;
   outers : nat;                 (* invocation goroutines counted by activeInvHandlers *)
-  peer_closed : bool }.
+  peer_closed : bool;
+  router_reads : bool }.        (* the peer still takes what the client sends *)
 
 Definition init : state :=
   {| ws := []; aw := []; r_pc := RLoop; inbox := []; recv_closed := false; recv_done := false;
-     done := false; c_pc := CNone; outers := 0; peer_closed := false |}.
+     done := false; c_pc := CNone; outers := 0; peer_closed := false; router_reads := true |}.
 
 Inductive label :=
 (* environment *)
 | LNewWaiter (k : id) (call : bool)   (* an API goroutine registers k, sends its request, enters the select *)
 | LDeliver (m : msg)                  (* the router's next message arrives *)
 | LTransportEnd
+| LRouterStops                        (* the peer stops taking what the client sends (writer gone, handler busy) *)
 | LCtx (k : id)                       (* the caller cancels / the deadline of its Call passes *)
 | LInvNew                             (* run starts an invocation's goroutines *)
 (* run *)
-| LRunTake | LRunSeeEnd | LRunLookup | LRunHandover (final : bool) | LRunGone | LRunUserDone
+| LRunTake | LRunSeeEnd | LRunLookup | LRunHandover (final : bool) | LRunGone | LRunSeeRecvDone | LRunUserDone
 (* waiters *)
-| LTimer (k : id) | LSeeDone (k : id) | LCancelSent (k : id) | LProgDone (k : id)
+| LSent (k : id) | LSendSeesDone (k : id) | LTimer (k : id) | LSeeDone (k : id) | LCancelSent (k : id) | LProgDone (k : id)
 | LDelete (k : id) | LCloseGone (k : id)
 (* Close() *)
 | LCloseStart | LGoodbyeSent | LCloseTimer | LCloseSeeDone | LEndRecv | LCloseSeeDone2 | LWgWait | LClosePeer
@@ -100,16 +105,17 @@ Fixpoint mem (k : id) (l : list id) : bool :=
 Fixpoint remove (k : id) (l : list id) : list id :=
   match l with [] => [] | x :: r => if k =? x then remove k r else x :: remove k r end.
 
-Definition set_ws s v := {| ws := v; aw := aw s; r_pc := r_pc s; inbox := inbox s; recv_closed := recv_closed s; recv_done := recv_done s; done := done s; c_pc := c_pc s; outers := outers s; peer_closed := peer_closed s |}.
-Definition set_aw s v := {| ws := ws s; aw := v; r_pc := r_pc s; inbox := inbox s; recv_closed := recv_closed s; recv_done := recv_done s; done := done s; c_pc := c_pc s; outers := outers s; peer_closed := peer_closed s |}.
-Definition set_rpc s v := {| ws := ws s; aw := aw s; r_pc := v; inbox := inbox s; recv_closed := recv_closed s; recv_done := recv_done s; done := done s; c_pc := c_pc s; outers := outers s; peer_closed := peer_closed s |}.
-Definition set_inbox s v := {| ws := ws s; aw := aw s; r_pc := r_pc s; inbox := v; recv_closed := recv_closed s; recv_done := recv_done s; done := done s; c_pc := c_pc s; outers := outers s; peer_closed := peer_closed s |}.
-Definition set_recv_closed s v := {| ws := ws s; aw := aw s; r_pc := r_pc s; inbox := inbox s; recv_closed := v; recv_done := recv_done s; done := done s; c_pc := c_pc s; outers := outers s; peer_closed := peer_closed s |}.
-Definition set_recv_done s v := {| ws := ws s; aw := aw s; r_pc := r_pc s; inbox := inbox s; recv_closed := recv_closed s; recv_done := v; done := done s; c_pc := c_pc s; outers := outers s; peer_closed := peer_closed s |}.
-Definition set_done s v := {| ws := ws s; aw := aw s; r_pc := r_pc s; inbox := inbox s; recv_closed := recv_closed s; recv_done := recv_done s; done := v; c_pc := c_pc s; outers := outers s; peer_closed := peer_closed s |}.
-Definition set_cpc s v := {| ws := ws s; aw := aw s; r_pc := r_pc s; inbox := inbox s; recv_closed := recv_closed s; recv_done := recv_done s; done := done s; c_pc := v; outers := outers s; peer_closed := peer_closed s |}.
-Definition set_outers s v := {| ws := ws s; aw := aw s; r_pc := r_pc s; inbox := inbox s; recv_closed := recv_closed s; recv_done := recv_done s; done := done s; c_pc := c_pc s; outers := v; peer_closed := peer_closed s |}.
-Definition set_peer_closed s v := {| ws := ws s; aw := aw s; r_pc := r_pc s; inbox := inbox s; recv_closed := recv_closed s; recv_done := recv_done s; done := done s; c_pc := c_pc s; outers := outers s; peer_closed := v |}.
+Definition set_ws s v := {| ws := v; aw := aw s; r_pc := r_pc s; inbox := inbox s; recv_closed := recv_closed s; recv_done := recv_done s; done := done s; c_pc := c_pc s; outers := outers s; peer_closed := peer_closed s; router_reads := router_reads s |}.
+Definition set_aw s v := {| ws := ws s; aw := v; r_pc := r_pc s; inbox := inbox s; recv_closed := recv_closed s; recv_done := recv_done s; done := done s; c_pc := c_pc s; outers := outers s; peer_closed := peer_closed s; router_reads := router_reads s |}.
+Definition set_rpc s v := {| ws := ws s; aw := aw s; r_pc := v; inbox := inbox s; recv_closed := recv_closed s; recv_done := recv_done s; done := done s; c_pc := c_pc s; outers := outers s; peer_closed := peer_closed s; router_reads := router_reads s |}.
+Definition set_inbox s v := {| ws := ws s; aw := aw s; r_pc := r_pc s; inbox := v; recv_closed := recv_closed s; recv_done := recv_done s; done := done s; c_pc := c_pc s; outers := outers s; peer_closed := peer_closed s; router_reads := router_reads s |}.
+Definition set_recv_closed s v := {| ws := ws s; aw := aw s; r_pc := r_pc s; inbox := inbox s; recv_closed := v; recv_done := recv_done s; done := done s; c_pc := c_pc s; outers := outers s; peer_closed := peer_closed s; router_reads := router_reads s |}.
+Definition set_recv_done s v := {| ws := ws s; aw := aw s; r_pc := r_pc s; inbox := inbox s; recv_closed := recv_closed s; recv_done := v; done := done s; c_pc := c_pc s; outers := outers s; peer_closed := peer_closed s; router_reads := router_reads s |}.
+Definition set_done s v := {| ws := ws s; aw := aw s; r_pc := r_pc s; inbox := inbox s; recv_closed := recv_closed s; recv_done := recv_done s; done := v; c_pc := c_pc s; outers := outers s; peer_closed := peer_closed s; router_reads := router_reads s |}.
+Definition set_cpc s v := {| ws := ws s; aw := aw s; r_pc := r_pc s; inbox := inbox s; recv_closed := recv_closed s; recv_done := recv_done s; done := done s; c_pc := v; outers := outers s; peer_closed := peer_closed s; router_reads := router_reads s |}.
+Definition set_outers s v := {| ws := ws s; aw := aw s; r_pc := r_pc s; inbox := inbox s; recv_closed := recv_closed s; recv_done := recv_done s; done := done s; c_pc := c_pc s; outers := v; peer_closed := peer_closed s; router_reads := router_reads s |}.
+Definition set_peer_closed s v := {| ws := ws s; aw := aw s; r_pc := r_pc s; inbox := inbox s; recv_closed := recv_closed s; recv_done := recv_done s; done := done s; c_pc := c_pc s; outers := outers s; peer_closed := v; router_reads := router_reads s |}.
+Definition set_router_reads s v := {| ws := ws s; aw := aw s; r_pc := r_pc s; inbox := inbox s; recv_closed := recv_closed s; recv_done := recv_done s; done := done s; c_pc := c_pc s; outers := outers s; peer_closed := peer_closed s; router_reads := v |}.
 
 Definition set_wpc (s : state) (k : id) (w : waiter) (pc : wpc) : state :=
   set_ws s (wupdate (ws s) k {| w_pc := pc; w_call := w_call w; w_gone := w_gone w |}).
@@ -124,10 +130,11 @@ Definition step (guarded : bool) (s : state) (l : label) : option state :=
       | Some _ => None                                   (* request ids are never reused *)
       | None =>
           if done s then None                            (* Connected() is false: the API returns at once *)
-          else Some (set_aw (set_ws s ((k, {| w_pc := WSelect; w_call := call; w_gone := false |}) :: ws s)) (k :: aw s))
+          else Some (set_aw (set_ws s ((k, {| w_pc := WSending; w_call := call; w_gone := false |}) :: ws s)) (k :: aw s))
       end
   | LDeliver m => if recv_closed s then None else Some (set_inbox s (inbox s ++ [m]))
   | LTransportEnd => if recv_closed s then None else Some (set_recv_closed s true)
+  | LRouterStops => if router_reads s then Some (set_router_reads s false) else None
   | LCtx k =>
       match wlookup (ws s) k with
       | Some w => match w_pc w with
@@ -188,8 +195,31 @@ Definition step (guarded : bool) (s : state) (l : label) : option state :=
           end
       | _ => None
       end
+  | LRunSeeRecvDone =>
+      (* repaired client: the hand-over select also watches RecvDone, so that
+         Close() frees run() when the waiter is itself behind a peer that does
+         not read *)
+      match r_pc s with
+      | RSend _ => if guarded && recv_done s then Some (set_rpc s RLoop) else None
+      | _ => None
+      end
   | LRunUserDone => match r_pc s with RUser => Some (set_rpc s RLoop) | _ => None end
   (* ---- waiters ---- *)
+  | LSent k =>
+      match wlookup (ws s) k with
+      | Some w => match w_pc w with
+                  | WSending => if router_reads s then Some (set_wpc s k w WSelect) else None
+                  | _ => None end
+      | None => None
+      end
+  | LSendSeesDone k =>
+      (* repaired client: c.send selects on Done; the caller then drops its entry *)
+      match wlookup (ws s) k with
+      | Some w => match w_pc w with
+                  | WSending => if guarded && done s then Some (set_wpc s k w WLeaving) else None
+                  | _ => None end
+      | None => None
+      end
   | LTimer k =>
       match wlookup (ws s) k with
       | Some w => match w_pc w with
@@ -270,13 +300,13 @@ Definition run_stuck (g : bool) (s : state) : Prop :=
 
 Definition is_run_label (l : label) : bool :=
   match l with
-  | LRunTake | LRunSeeEnd | LRunLookup | LRunHandover _ | LRunGone | LRunUserDone => true
+  | LRunTake | LRunSeeEnd | LRunLookup | LRunHandover _ | LRunGone | LRunSeeRecvDone | LRunUserDone => true
   | _ => false
   end.
 
 Definition waiter_label_of (l : label) : option id :=
   match l with
-  | LTimer k | LSeeDone k | LCancelSent k | LProgDone k | LDelete k | LCloseGone k | LCtx k => Some k
+  | LSent k | LSendSeesDone k | LTimer k | LSeeDone k | LCancelSent k | LProgDone k | LDelete k | LCloseGone k | LCtx k => Some k
   | _ => None
   end.
 
@@ -291,6 +321,6 @@ Definition is_closer_label (l : label) : bool :=
 Definition release_rank (pc : wpc) : nat :=
   match pc with
   | WSelect | WCancelSelect | WReturned => 0
-  | WProg | WCancelSend | WDeleted => 1
+  | WSending | WProg | WCancelSend | WDeleted => 1
   | WLeaving => 2
   end.
